@@ -47,6 +47,10 @@ Definition prefix_ok10 (p : string * Z) : bool :=
 Definition prefix_ok2 (p : string * Z) : bool :=
   match find (fun x => String.eqb (fst x) (fst p)) si_prefixes with
   | Some (_, e) => Qeq_bool (eval_q e) (inject_Z (1024 ^ snd p)) | None => false end.
+(* every arm of the table is a prefix we know, with the value its name denotes *)
+Definition prefix_known (x : string * cexpr) : bool :=
+  existsb (fun p => String.eqb (fst p) (fst x) && Qeq_bool (eval_q (snd x)) (dec 1 (snd p))) (List.app decimal_prefixes optional_decimal_prefixes)
+  || existsb (fun p => String.eqb (fst p) (fst x) && Qeq_bool (eval_q (snd x)) (inject_Z (1024 ^ snd p))) binary_prefixes.
 Definition names_unique (q : quantity_decl) : bool :=
   (fix go (l : list unit_decl) := match l with [] => true | u :: r => negb (existsb (fun v => String.eqb (u_name v) (u_name u)) r) && go r end) (q_units q).
 
@@ -56,6 +60,7 @@ Definition failing_offset_anchors := map fst (filter (fun a => negb (anchor_offs
 Definition failing_seven_digit_anchors := map fst (filter (fun a => negb (anchor_seven a)) seven_digit_anchors).
 Definition failing_reference_values := map fst (filter (fun a => negb (anchor_exact a)) reference_values).
 Definition failing_turn_anchors := map fst (filter (fun a => negb (anchor_seven a)) turn_anchors).
-Definition failing_prefixes := List.app (map fst (filter (fun p => negb (prefix_ok10 p)) decimal_prefixes)) (map fst (filter (fun p => negb (prefix_ok2 p)) binary_prefixes)).
+Definition failing_prefixes := List.app (List.app (map fst (filter (fun p => negb (prefix_ok10 p)) decimal_prefixes)) (map fst (filter (fun p => negb (prefix_ok2 p)) binary_prefixes)))
+                                        (map fst (filter (fun x => negb (prefix_known x)) si_prefixes)).
 Definition quantities_without_coherent_unit := map q_mod (filter (fun q => negb (has_coherent_unit q)) si_quantities).
 Definition failing_base_units := map b_unit (filter (fun b => negb (existsb (fun i => base_ok i b) (seq 0 (List.length si_base)))) si_base).
